@@ -58,7 +58,7 @@ static inline bool operator>(const Elem& a, const Elem& b) { return a.key > b.ke
 typedef std::ptrdiff_t Rank;
 typedef std::pair<Elem*, Elem*> SeqPair;
 
-static const int MAXM = 8, MAXL = 40, MAXN = 80;
+static const int MAXM = 26, MAXL = 40, MAXN = 80;
 
 struct Case {
     bool greater = false;
@@ -303,20 +303,31 @@ struct Block {
     std::vector<int> len;
     Rank N;
     uint64_t ncases, first;
+    bool wide;  // many sequences: keys restricted to {0,1} (libstdc++'s std::sort is an insertion sort, hence
+                // stable, up to 16 elements: more than 16 sequences are needed to see an unstable sample sort)
 };
 static std::vector<Block> g_blocks;
 static uint64_t g_total = 0, g_tuples = 0;
 
-static void add_block(const std::vector<int>& len) {
+static std::vector<std::vector<std::pair<int, int>>> g_assign2;  // assignments over keys {0,1} only
+
+static void add_block(const std::vector<int>& len, bool wide = false) {
     Block b;
     b.len = len;
+    b.wide = wide;
+    if (g_assign2.empty()) {
+        g_assign2.resize(g_assign.size());
+        for (size_t L = 0; L < g_assign.size(); ++L)
+            for (auto& a : g_assign[L])
+                if (a.first + a.second == (int)L) g_assign2[L].push_back(a);
+    }
     if ((int)len.size() > MAXM) abort();
     b.N = 0;
     uint64_t na = 1;
     for (int l : len) {
         if (l > MAXL) abort();
         b.N += l;
-        na *= g_assign[l].size();
+        na *= (wide ? g_assign2 : g_assign)[l].size();
     }
     if (b.N > MAXN) abort();
     b.ncases = na * 2 * (uint64_t)(b.N + 1);
@@ -356,7 +367,7 @@ static Case decode(uint64_t id) {
     c.m = (int)b.len.size();
     for (int i = 0; i < c.m; ++i) {
         int l = b.len[i];
-        auto& tab = g_assign[l];
+        auto& tab = (b.wide ? g_assign2 : g_assign)[l];
         std::pair<int, int> cc = tab[q % tab.size()];
         q /= tab.size();
         c.len[i] = l;
@@ -400,6 +411,20 @@ int main(int argc, char** argv) {
     }
     if (vh::args().opt_int("extra", 1))
         for (auto& e : extra) add_block(e);
+    // more than 16 sequences (keys {0,1}): the initial sample of the partition has one element per sequence
+    if (vh::args().opt_int("wide", 1)) {
+        add_block(std::vector<int>(17, 1), true);
+        std::vector<int> w(17, 1);
+        w[0] = 2;
+        add_block(w, true);
+        if (T) {
+            add_block(std::vector<int>(18, 1), true);
+            add_block(std::vector<int>(20, 1), true);
+            w.assign(18, 1);
+            w[9] = 3;
+            add_block(w, true);
+        }
+    }
 
     if (vh::args().has_replay) {
         return vh::replay_one([&](const std::string& r) {
